@@ -560,6 +560,9 @@ PLANS["C20"] = dict(
 # bevy (C18, C19): relational oracles on the real App's observable state, frame by frame
 
 def parse_bevy(o):
+    # an App may hold several entities (` ## `-separated): the relational rules are judged on entity 0, the others are
+    # there to interfere if the systems let them (they are compared with the model line by line)
+    o = o.split(" ## ")[0]
     parts = o.split(" | ")
     p = parts[0].split(" ")
     d = dict(state=int(p[0]), pos=int(p[1]), enabled=p[2] == "1", comp=(p[3], p[4]),
@@ -639,6 +642,7 @@ def extra_bevy(prop, tier, seed, profiles):
                     if not blk_dyadic and tlw is not None and near_duration(tlw, prev["pos"]): fails[-1]["inexact_timing"] = True
             continue
         if w[0] not in ("bapp", "frame", "setkey", "enable", "breset", "settl", "setpos"): continue
+        if w[-1].startswith("@") and w[-1] != "@0": continue      # an operation on another entity of the App
         if o.startswith(("panic", "bad")): prev = None; continue
         cur = parse_bevy(o)
         if w[0] == "bapp":
@@ -1006,7 +1010,8 @@ def py_derive(w):
     rn = remote.split("::")[-1] if remote else name
     names = ",".join(f[0] for f in anim)
     return (f"derive[target={name};remote={rn};vfromty={remote or name};tl={rn}Timeline;data={rn}KeyframeData;builder={rn}KeyframeBuilder;"
-            f"vis={vis};anim={','.join(f'{n}:{t}' for n, t, _ in anim)};setters={names};kfrom={names};vfrom={names};upd={names};start={names};fake={0 if rn == name else 1}]")
+            f"vis={vis};anim={','.join(f'{n}:{t}' for n, t, _ in anim)};setters={names};kfrom={names};vfrom={names};upd={names};start={names};fake={0 if rn == name else 1};"
+            f"init={','.join(f'{n}<{n}' for n, _, _ in anim)}]")
 
 
 def extra_macro(prop, tier, seed, profiles):
@@ -1048,5 +1053,39 @@ PLANS["C15"] = dict(suites=[Suite("mtl", 4000, 200000, crate="macro")], floors={
                                  "quote! emission and rustc's compilation of the emitted code are exercised by the compiled program family (lib/compiled.py: generated sentences really compiled through the macro and compared with builder calls rendered from the model's reading), not modelled"])
 PLANS["C16"] = dict(suites=[Suite("manim", 3000, 150000, crate="macro")], floors={"quick": dict(MACRO_FLOORS["quick"], **{"compiled-cases": 30})}, extra=extra_macro,
                     assumptions=["the outer block structure (default clause, arms) is taken as parsed; arm bodies go through the timeline! token model"])
+def extra_c08_derive(prop, tier, seed, profiles):
+    """C08 on the derive: the generated `update` / `start_with` touch exactly the animated fields — an excluded field, or a
+    field of another name, is never assigned.  Judged on the implementation's expansion record alone."""
+    n = 2000 if tier == "quick" else 60000
+    path = os.path.join(P.WORK, prop, f"derive.{tier}.ops")
+    os.makedirs(os.path.dirname(path), exist_ok=True)
+    mbin = P.harness_bin("debug", P.MACRO, "macro_harness")
+    P.gen_ops("mderive", seed + 808, n, path, gen_bin=mbin)
+    out = path[:-4] + ".impl"
+    P.run_stream(mbin, ["run"], path, out)
+    ops, impl = P.read_lines(path), P.read_lines(out)
+    fails, checked = [], 0
+    hist = {"derive-accepted": 0, "derive-with-excluded-fields": 0}
+    def part(rec, key):
+        m = _re.search(r"(?:\[|;)" + key + r"=([^;\]]*)", rec)
+        return m.group(1) if m else None
+    for L, (op, o) in enumerate(zip(ops, impl)):
+        w = [x for x in op.split(" ") if x]
+        if not w or w[0] != "mderive": continue
+        want = py_derive(w[1:])
+        if want == "reject" or not o.startswith("derive["): continue
+        checked += 1
+        hist["derive-accepted"] += 1
+        if any(f.rsplit(":", 1)[1] in ("n", "N") for f in w[5:]) and any(f.rsplit(":", 1)[1] in ("a", "A") for f in w[5:]):
+            hist["derive-with-excluded-fields"] += 1
+        for key in ("upd", "start", "init"):
+            if part(o, key) != part(want, key):
+                fails.append(dict(line=L, directive=f"spec the generated {key} list touches exactly the animated fields", op=op, got=f"{key}={part(o, key)}", want=f"{key}={part(want, key)}", ops=[op]))
+                break
+    return dict(checked=checked, fails=fails, evaluations=checked, hist=hist)
+
+
+PLANS["C08"]["extra"] = extra_c08_derive
+PLANS["C08"]["crates"] = ["macro"]
 PLANS["C17"] = dict(suites=[Suite("mderive", 3000, 150000, crate="macro"), Suite("tl", 200, 10000)], floors=MACRO_FLOORS, extra=extra_macro,
                     assumptions=["behaviour of the derived API is exercised on the three derive shapes compiled into the core harness (all fields, #[animate] subset, remote proxy) and, in the thorough tier, on generated program families"])
